@@ -14,6 +14,7 @@ import NumqiProofs.MatrixSpaceCombos
 import NumqiProofs.MatrixSpaceLevel2
 import NumqiProofs.MatrixSpaceTripartite
 import NumqiProofs.MatrixSpaceOrth
+import NumqiProofs.MatrixSpaceGellmann
 import NumqiModel.Generated.Thresholds20
 import Mathlib.Data.List.Sort
 import Mathlib.Data.Real.Basic
@@ -513,7 +514,7 @@ products by `κ`, then from the `svd` contract (rows `V` orthonormal, same span 
 span of the input; (3) the returned complement is orthogonal to the basis and to the input.  (`dims_add_up` is the count.)
 For the Gell-Mann branches (`R_T`, `C_T`, `C_H`, `R_cT`) `Φ` is `gellmann_basis_to_matrix` after the zero-block embedding
 (`symSelect_symEmbed`, `symEmbed_symSelect`: mutually inverse, the embedding only inserts zeros) with `κ = 2`
-(C16 `parseval_half` + `analysis_synthesis`), `κ = 4` after the block form. -/
+(`gellmann_synthesis_isometry`; instantiated for `C_H` in `orth_basis_C_H`), `κ = 4` after the block form. -/
 theorem orth_basis_claims {F : Type} [Field F] [StarRing F] {E : Type} [AddCommGroup E] [Module F E] {L N0 k c : ℕ}
     (ip : E → E → F) (Φ : (Fin L → F) →ₗ[F] E) (κ : F) (hiso : ∀ x y, ip (Φ x) (Φ y) = κ * dotS x y)
     (X : Fin N0 → Fin L → F) (V : Fin k → Fin L → F) (W : Fin c → Fin L → F)
@@ -556,6 +557,30 @@ theorem orth_basis_R_c {N1 N2 N0 k c : ℕ}
 theorem realifyL_apply {N1 N2 : ℕ} (x : Fin (N1 * (N2 + N2)) → ℝ) (p : Fin (N1 + N1)) (q : Fin (N2 + N2)) :
     realifyL N1 N2 x p q
       = blockRealify N1 N2 (rcUnflatten N1 N2 (List.ofFn x)).1 (rcUnflatten N1 N2 (List.ofFn x)).2 p.val q.val := rfl
+
+/-- **`gellmann_basis_to_matrix` doubles inner products** (`κ = 2`): `tr(AᴴB) = 2·Σ_p conj(a_p) b_p` for the matrices synthesised
+from the coordinate vectors `a`, `b` — from C16 (`parseval_half`, `analysis_synthesis`), any commutative `*`-ring with valid
+scalars, every `d ≥ 1`.  This is the `hiso` of `orth_basis_claims` for the four Gell-Mann branches (the zero-block embedding of
+`R_T`/`C_T`/`R_cT` only inserts zeros into the coordinate vector, §2). -/
+theorem gellmann_synthesis_isometry {R : Type} [CommRing R] [StarRing R] {d : ℕ} (S : Gellmann.Scalars R) (hS : S.Valid d)
+    (hd : 1 ≤ d) (a b : ℕ → R) :
+    Matrix.trace ((Matrix.of (Gellmann.synthesis S d a)).conjTranspose * Matrix.of (Gellmann.synthesis S d b))
+      = 2 * ∑ p ∈ range (d * d), star (a p) * b p :=
+  synthesis_isometry S hS hd a b
+
+/-- **branch `C_H`** (Hermitian matrices over ℝ, `gellmann_basis_to_matrix` of real coordinate rows, form `Re tr(AᴴB)`):
+mutually orthogonal with common squared norm 2, same span over ℝ, orthogonal complement -/
+theorem orth_basis_C_H {d N0 k c : ℕ} (hd : 1 ≤ d)
+    (X : Fin N0 → Fin (d * d) → ℝ) (V : Fin k → Fin (d * d) → ℝ) (W : Fin c → Fin (d * d) → ℝ)
+    (hV : ∀ i j, dotS (V i) (V j) = if i = j then 1 else 0)
+    (hspan : Submodule.span ℝ (Set.range V) = Submodule.span ℝ (Set.range X))
+    (hWV : ∀ i j, dotS (W i) (V j) = 0) :
+    (∀ i j, (Matrix.trace ((synthL d hd (V i)).conjTranspose * synthL d hd (V j))).re = if i = j then 2 else 0)
+    ∧ Submodule.span ℝ (Set.range fun i => synthL d hd (V i)) = Submodule.span ℝ (Set.range fun i => synthL d hd (X i))
+    ∧ (∀ i j, (Matrix.trace ((synthL d hd (W i)).conjTranspose * synthL d hd (V j))).re = 0)
+    ∧ (∀ i j, (Matrix.trace ((synthL d hd (W i)).conjTranspose * synthL d hd (X j))).re = 0) :=
+  MatrixSpace.orth_basis_claims (E := Matrix (Fin d) (Fin d) ℂ)
+    (fun A B => (Matrix.trace (A.conjTranspose * B)).re) (synthL d hd) 2 (fun x y => synthL_iso d hd x y) X V W hV hspan hWV
 
 end orth
 
